@@ -51,6 +51,22 @@ def load_known():
     return out
 
 
+def scan_assumptions(name, text):
+    """mechanical scan of the generated file for everything that is assumed rather than proved"""
+    ext_fns = re.findall(r'#\[verifier::external_body\]\s*(?:#\[[^\]]*\]\s*)*(?:pub\s+)?fn\s+(\w+)', text)
+    ext_types = re.findall(r'#\[verifier::external_body\]\s*(?:#\[[^\]]*\]\s*)*(?:pub\s+)?struct\s+(\w+)', text)
+    n_spec = len(re.findall(r'\bassume_specification\b', text))
+    n_axiom = len(re.findall(r'\baxiom\s+fn\b', text))
+    n_uninterp = len(re.findall(r'\buninterp\s+spec\s+fn\b', text))
+    n_assume = len(re.findall(r'\bassume\s*\(', text))
+    n_admit = len(re.findall(r'\badmit\s*\(', text))
+    n_nodec = len(re.findall(r'exec_allows_no_decreases_clause', text))
+    return ('mechanical scan of %s.rs: %d external_body fns (%s), %d opaque types (%s), %d assume_specification, %d axiom(s), '
+            '%d uninterpreted spec fns, %d assume(), %d admit(), %d fn(s) without termination proof'
+            % (name, len(ext_fns), ', '.join(sorted(set(ext_fns))), len(ext_types), ', '.join(sorted(set(ext_types))), n_spec, n_axiom, n_uninterp,
+               n_assume, n_admit, n_nodec))
+
+
 def run_vgroup(name, repo, scratch, rlimit):
     t0 = time.time()
     res = dict(group=name, status='ok', units={}, undecided=[], canaries_ok=0, canaries=0, verified=0,
@@ -72,6 +88,7 @@ def run_vgroup(name, repo, scratch, rlimit):
         f.write('\n'.join(g.listing))
     with open(os.path.join(VERIF, 'evidence', 'extract', name + '.rs'), 'w') as f:
         f.write(text)
+    res['scan'] = scan_assumptions(name, text)
     r = vrun.run_verus(path, rlimit=rlimit)
     res['cmd'] = r['cmd'].replace(scratch, '<scratch>')
     per_unit, hard = vrun.classify(r, linemap)
@@ -193,6 +210,8 @@ def finish(pid, cfg, tier, seed, vres, kres, known, t0, scratch):
             assumptions.add('composition gap: ' + gp)
         for st in r.get('stubs', []):
             assumptions.add('assumed callee contract (R5, external_body): ' + st)
+        if r.get('scan'):
+            assumptions.add(r['scan'])
         for unit, m in meta.items():
             if pid not in m['props']:
                 continue
